@@ -2,6 +2,7 @@ import XPathV.Lemmas.Facts
 import XPathV.Generated.ExtraFacts
 import XPathV.Lemmas.C08Base
 import XPathV.Lemmas.ArithSem
+import XPathV.Lemmas.ArithSem2
 /-!
 # C08 — arithmetic and numeric functions follow XPath 1.0 / IEEE 754 (property-level theorems)
 
@@ -197,5 +198,78 @@ theorem numeric_ops_ok : Generated.modUsesIntConversion = false ∧
 theorem numeric_sources_ok : Generated.modCallbackSrc = "math.Mod(a,b)" ∧
     Generated.asStringFloatSrc = "switch{casemath.IsNaN(v):return\"NaN\"casemath.IsInf(v,1):return\"Infinity\"casemath.IsInf(v,-1):return\"-Infinity\"casev==0:return\"0\"};returnstrconv.FormatFloat(v,'f',-1,64)" :=
   ⟨rfl, rfl⟩
+
+end XPathV.Theorems.C08
+
+/-! ## `count(P)` / `sum(P)` over flat paths **with predicates** (`PredSem2.Frag2`)
+
+`Lemmas/ArithSem2.lean`: the arithmetic fragment `NumEF2` is `NumEF` with the arguments of `count`
+and `sum` ranging over `ArithSem2.FlatF2` — flat paths (child/attribute/self steps from the context
+node or the root) whose steps carry any number of the boolean-valued predicates of the C02 fragment
+`Frag2` (`count(a[@x < @y]) * 2 + 1`, `sum(a[b]/@x) div count(a[b])`).  The `Frag2` builder lemmas
+are stated at `smartDescThroughFilter = false` (the value read off the source), so the builder
+parameter `sdf` of `C08_main` is fixed to `false` here. -/
+namespace XPathV.Theorems.C08
+open XPathV XPathV.Model XPathV.Facts XPathV.PathSem XPathV.ArithSem XPathV.ArithSem2 NumAlg
+
+variable {F : Type} [NumAlg F]
+
+/-- **C08, filtered counts (and sums)**: same conclusion as `C08_main` — the built plan's number is
+the oracle's number — for arithmetic trees of every depth whose `count(P)` / `sum(P)` leaves have
+flat paths `P` *with `Frag2` predicates* (`NumEF2`); hypotheses of C02 -/
+theorem C08_main_filtered_counts {d : Doc} (wf : WF d) (cfg : ECfg) (hns : cfg.nsIface = true)
+    (hinj : HashInj d cfg) (regexOk : RegexOk) (limit : Nat)
+    (c : Ref) (hc : validRef d c = true) (i n : Nat) {e : Ast} (he : NumEF2 d ⟨c, i, n⟩ F e)
+    (fl : Flags) (st : BState) (o : BOut) (hb : build regexOk limit true false e fl st = .ok o) :
+    ∃ x : F, evalP (F := F) d cfg o.q c = .ok (.num x) ∧
+      Spec.eval (F := F) d e ⟨c, i, n⟩ = .ok (.val (.num x) none) :=
+  C08_main2 wf cfg hns hinj regexOk limit c hc i n he fl st o hb
+
+/-- `C08_main_filtered_counts` without the `HashInj` hypothesis (`hashInj_holds`) -/
+theorem C08_main_filtered_counts_unconditional {d : Doc} (wf : WF d) (cfg : ECfg)
+    (hns : cfg.nsIface = true) (hattr : AttrTriplesDistinct d) (regexOk : RegexOk) (limit : Nat)
+    (c : Ref) (hc : validRef d c = true) (i n : Nat) {e : Ast} (he : NumEF2 d ⟨c, i, n⟩ F e)
+    (fl : Flags) (st : BState) (o : BOut) (hb : build regexOk limit true false e fl st = .ok o) :
+    ∃ x : F, evalP (F := F) d cfg o.q c = .ok (.num x) ∧
+      Spec.eval (F := F) d e ⟨c, i, n⟩ = .ok (.val (.num x) none) :=
+  C08_main_filtered_counts wf cfg hns (PathSem.hashInj_holds wf hattr cfg) regexOk limit c hc i n he
+    fl st o hb
+
+/-- … at the public API: `Expr.Evaluate` returns the number the oracle's top-level evaluation returns -/
+theorem C08_evaluate_filtered_counts {d : Doc} (wf : WF d) (cfg : ECfg) (hns : cfg.nsIface = true)
+    (hinj : HashInj d cfg) (regexOk : RegexOk) (limit : Nat)
+    (c : Ref) (hc : validRef d c = true) {e : Ast} (he : NumEF2 d ⟨c, 1, 1⟩ F e)
+    (st : BState) (o : BOut) (hb : build regexOk limit true false e {} st = .ok o) :
+    ∃ x : F, evaluate (F := F) d cfg o.q c = .ok (.num x) ∧
+      Spec.evalTop (F := F) d e c = .ok (.num x) :=
+  numEF2_evaluate wf cfg hns hinj regexOk limit c hc he st o hb
+
+/-- **old fragment → new**: every expression of `NumEF` (the fragment of `C08_main`) is in `NumEF2`,
+so `C08_main_filtered_counts` contains `C08_main` at `sdf = false` -/
+theorem C08_filtered_counts_embeds {d : Doc} {ctx : Spec.Ctx} {e : Ast} (h : NumEF d ctx F e) :
+    NumEF2 d ctx F e := numEF2_of_numEF h
+
+/-- `C08_main` (at `smartDescThroughFilter = false`) is the restriction of
+`C08_main_filtered_counts` to the old fragment -/
+theorem C08_main_of_filtered_counts {d : Doc} (wf : WF d) (cfg : ECfg) (hns : cfg.nsIface = true)
+    (hinj : HashInj d cfg) (regexOk : RegexOk) (limit : Nat)
+    (c : Ref) (hc : validRef d c = true) (i n : Nat) {e : Ast} (he : NumEF d ⟨c, i, n⟩ F e)
+    (fl : Flags) (st : BState) (o : BOut) (hb : build regexOk limit true false e fl st = .ok o) :
+    ∃ x : F, evalP (F := F) d cfg o.q c = .ok (.num x) ∧
+      Spec.eval (F := F) d e ⟨c, i, n⟩ = .ok (.val (.num x) none) :=
+  C08_main_filtered_counts wf cfg hns hinj regexOk limit c hc i n (C08_filtered_counts_embeds he)
+    fl st o hb
+
+/-- **`sum(P)` over a flat filtered path**: if the oracle evaluates `sum(P)` to the number `x`
+(every node `P` selects is numeric), the built plan of `sum(P)` evaluates to `x` -/
+theorem C08_sum_filtered {d : Doc} (wf : WF d) (cfg : ECfg) (hns : cfg.nsIface = true)
+    (hinj : HashInj d cfg) (regexOk : RegexOk) (limit : Nat)
+    (c : Ref) (hc : validRef d c = true) (i n : Nat) {p : Ast} (hp : FlatF2 p) (pfx : String)
+    (x : F) (g : Option (List (List Ref)))
+    (hx : Spec.eval (F := F) d (.call "sum" pfx (.acons p .anil)) ⟨c, i, n⟩ = .ok (.val (.num x) g))
+    (fl : Flags) (st : BState) (o : BOut)
+    (hb : build regexOk limit true false (.call "sum" pfx (.acons p .anil)) fl st = .ok o) :
+    evalP (F := F) d cfg o.q c = .ok (.num x) :=
+  sum_flat2_sem wf cfg hns hinj regexOk limit c hc i n hp pfx x g hx fl st o hb
 
 end XPathV.Theorems.C08
